@@ -6,20 +6,44 @@ source kinds (path, pathlib, bytes, BytesIO, buffered / unbuffered file, a real 
 read() [+ readinto] and NOTHING else: no seekable, no seek/tell, no close) x read_evlrs {True, False, not given} x ways of
 consuming the reader (nothing, chunk iterators, read_points, mixtures) observed at three moments (just opened / consumed but
 not read() / everything read), laspy.read(source), and the exact sequence of stream methods called on the doubles at each
-moment; memory map: result, and the file bytes after every edit by every assignment route. A malformed stream (truncated
-point blocks, cuts inside records/EVLRs/header, gaps read sequentially, misplaced/over-counted EVLRs, bad signatures) is
-compared too.
+moment; memory map: result, and the file bytes after every edit by every assignment route. Files with a gap between the last
+point and the first EVLR read the same through every source (one that cannot seek reads and drops the gap). A malformed stream
+(truncated point blocks, cuts inside records/EVLRs/header, misplaced/over-counted EVLRs, bad signatures) is compared too.
 Search (no model): every access path against the path's at the three moments; the chunks handed out are KEPT and looked at
 only after the last read (and the result once more after the reader is closed); logs of non-seekable doubles and what a
 read()-only source was asked for, on EVERY file, malformed ones included; files cut inside their point block must read the
 same through every source; memory-map edits (whole dimension by attribute / item / record, scaled x y z, sub-fields, slices
-and elements of views) against the same edit on an in-memory copy, by byte diff of the file and by a subsequent read."""
+and elements of views) against the same edit on an in-memory copy, by byte diff of the file and by a subsequent read.
+Search only (no model: the extracted model counts bytes in unary, and the library has nothing to follow for short counts):
+* EVLR TIMING ON EVERY FILE — by path (which runs every (read_evlrs, plan)), on every file, malformed ones included, the outcome with
+  read_evlrs False / not given is the outcome with read_evlrs=True for the same plan (both fail, or both give the same result).
+* SIZE BOUNDARIES — in every run data sets of which one part (the point block — also EXACTLY a multiple of the buffer size —; the header + VLR block fetched by the
+  second prefetch read; one VLR payload; one EVLR payload; the gap between the last point and the first EVLR; the number of VLRs / EVLRs) is just over 8 KiB, 64 KiB, 1 MiB, a multiple of
+  io.DEFAULT_BUFFER_SIZE, and two whose point block is a bit more than 8 MiB (16 / 32 / 64 MiB in the thorough tier), read in ONE
+  call (read() alone, read_points(n), read_points(-1), one chunk) and by chunks whose bytes cross the same boundaries, through every
+  source kind, laspy.read and the memory map; the records are compared with the bytes that were written (a recipe = seed + sizes
+  makes the file again for the replay).
+* SHORT COUNTS — the doubles again, and an unbuffered OS pipe and a socket fed in pieces, whose read(n) / readinto(buffer) give FEWER
+  bytes than asked although more are left (1 byte, 7, 227, 4096, 64 KiB, half, all but one, random, every other call): legal for raw
+  streams and sockets. The oracle is the same (same header / VLRs / EVLRs / records as by path at the three moments, no seek or tell on
+  a source that cannot seek, nothing but read on a bare source); every failure on such a source has a kind that starts with
+  "short-count-source: " (and no other kind does). They are run on the files that are valid for every source (valid, trailing bytes,
+  gap, cut after whole records, size boundaries), each of which is also run through the ordinary sources. Correspondence for them: the doubles themselves against the model's short-count source (s_read_short, read_exact).
+* OTHER ENTRY POINTS AND ARGUMENT TYPES — on every file (and every size-boundary data set) the same (read_evlrs, plan) as by path
+  through laspy.LasReader(stream, ..) instead of laspy.open, through laspy.open(source, "r", ..), and with the counts of read_points /
+  chunk_iterator given as numpy integers (int64, intp) and read_evlrs as a numpy bool; the kind of every failure starts with the name
+  of the variant ("numpy integer arguments (int64): ...")."""
 import io
+import math
 import os
 import pathlib
+import random
 import shutil
+import socket
 import tempfile
 import threading
+import zlib
+from concurrent.futures import ThreadPoolExecutor
 
 import numpy as np
 
@@ -28,15 +52,24 @@ from harness import common, lasio
 DRIVER = "c17"
 ASSUMPTIONS = [
     "uncompressed point data (no LAZ backend is installed; compressed sources are outside the model)",
-    "a source's read(n) returns all n bytes when they exist (short reads only at the end of the data), as files, BytesIO, pipes "
-    "filled by a writer thread that closes its end, and the doubles do",
+    "the theorems about read_via / consume_via / open_via speak of sources whose read(n) / readinto give the n bytes when they exist "
+    "(short counts only at the end of the data: files, BytesIO, buffered pipes, the plain doubles; C17_full_count_call). Sources that "
+    "give SHORT counts (raw streams, sockets, unbuffered pipes) are run by the failing-input search only — the library makes one call "
+    "per read site, there is no loop to model — and C17_short_counts_partial proves at the level of one read site that asking again "
+    "until the bytes are there gives what the model's one call gives",
+    "data sets of more than 1 MiB (size boundaries) are judged by the failing-input search only: the extracted model counts bytes in "
+    "unary; the theorems hold for every size",
+    "the counts given to read_points / chunk_iterator are integers (the model's Z, Python's int); the same counts given as numpy int64 / intp, "
+    "laspy.LasReader(stream) instead of laspy.open, and laspy.open(source, 'r') are run by the failing-input search only; numpy integers "
+    "narrower than the products the library computes (n * point size) are outside the property",
     "a source that offers only read() (no seekable method, no close) is opened with closefd=False; it is used like a source whose "
     "seekable() answers False (C17_bare_source_like_nonseekable) and must read every file exactly as by path",
     "the memory map is written back by mmap.close() (OS write-back of a shared mapping is not modelled)",
-    "independence is proved for files whose points are all present and, for non-seekable sources, whose first EVLR starts right after the "
-    "last point (C17_written_files_are_laid_out: every file the writer model produces), and for files cut inside their point block after a "
-    "whole number of records (C17_truncated_point_block); other files are only compared model vs implementation, plus the call-log theorems "
-    "which hold for every byte string",
+    "independence is proved for files whose points are all present and, for non-seekable sources, whose first EVLR starts at or after the "
+    "end of the points (evlrs_after_points: a gap is read and dropped; C17_written_files_are_laid_out: every file the writer model produces "
+    "has none), and for files cut inside their point block after a whole number of records (C17_truncated_point_block); other files (EVLRs "
+    "announced before the end of the points, ...) are only compared model vs implementation, plus the call-log theorems which hold for "
+    "every byte string",
     "memory-map edits: values with as many elements as the map has records (a longer value makes the record grow into a private copy, which "
     "no file can follow); the expected bytes of scaled assignments are those the same assignment gives on an in-memory copy of the file",
 ]
@@ -48,6 +81,7 @@ DOUBLES = [("double_read_only", False, False, True), ("double_nonseekable_readin
 REAL = ["path", "pathlib", "bytes", "BytesIO", "buffered_file", "unbuffered_file"]
 PIPE = "pipe"       # a real non-seekable stream: seekable() is False, tell()/seek() raise, it has readinto
 CREATED = ("path", "pathlib", "bytes")      # sources for which laspy makes the stream itself
+RAW = ("raw_pipe", "raw_socket")            # real raw streams (not seekable, readinto): short counts whenever the OS has less than asked
 
 
 class Double:
@@ -102,6 +136,135 @@ class Double:
         raise AttributeError(name)
 
 
+# how many bytes ONE call of a short-count source gives when n (>= 1) are asked and available: between 1 and n
+SHORT_POLICIES = ["one", "k7", "k227", "k4096", "k65536", "half", "less1", "rand", "alt"]
+SHORT_BIG = ["k65536", "k1048576", "half", "k4096", "k8388608"]      # for data sets of several MiB: a bounded number of calls
+
+
+def short_cap(policy, rnd, n, calls):
+    if policy == "one":
+        return 1
+    if policy[0] == "k":
+        return min(n, int(policy[1:]))
+    if policy == "half":
+        return max(1, n // 2)
+    if policy == "less1":
+        return max(1, n - 1)
+    if policy == "rand":
+        return rnd.randrange(1, n + 1)
+    if policy == "alt":         # every other call is complete
+        return n if calls % 2 else max(1, n // 3)
+    raise ValueError(policy)
+
+
+class ShortDouble(Double):
+    """the same double whose read(n) / readinto(buffer) return SHORT counts: at least one byte when one is left, but fewer
+    than asked although more are available (what a raw stream, a socket, an unbuffered pipe may do); the number is given by
+    the policy (and a seed). read(-1) gives everything, as RawIOBase.readall does"""
+
+    def __init__(self, raw, seekable, readinto, has_seekable, policy, seed):
+        Double.__init__(self, raw, seekable, readinto, has_seekable)
+        self._policy = policy
+        self._rnd = random.Random(seed)
+        self._calls = 0
+        self.caps_used = []
+        self.short = 0      # calls that gave fewer bytes than asked although more were left
+
+    def _cap(self, n):
+        self._calls += 1
+        c = short_cap(self._policy, self._rnd, n, self._calls)
+        if len(self.caps_used) < 4096:
+            self.caps_used.append(c)
+        left = len(self._b.getbuffer()) - self._b.tell()
+        if c < min(n, left):
+            self.short += 1
+        return c
+
+    def read(self, n=-1):
+        self.log.append("r%d" % (-1 if n is None else n))
+        if n is None or n < 0:
+            return self._b.read()
+        if n == 0:
+            return b""
+        return self._b.read(self._cap(n))
+
+    def _readinto(self, buf):
+        mv = memoryview(buf).cast("B")
+        self.log.append("i%d" % len(mv))
+        if len(mv) == 0:
+            return 0
+        return self._b.readinto(mv[:self._cap(len(mv))])
+
+
+# the stable prefix of the kind of every failing input whose source returns short counts (one open finding of /repo: the library
+# makes one call per read site); no other kind starts with it
+SHORT_PREFIX = "short-count-source: "
+
+
+def short_kind(policy, seed, base):
+    return f"short/{policy}/{seed}/{base}"
+
+
+def base_kind(kind):
+    return kind.rsplit("/", 1)[-1]
+
+
+def is_short(kind):
+    return kind.startswith("short/") or kind in RAW
+
+
+class RawFed:
+    """the read end of an UNBUFFERED OS pipe / of a socket (a raw stream: one call gives what the OS has at that moment, which
+    may be less than asked), filled in pieces by a writer thread that closes its end"""
+
+    def __init__(self, raw, how, seed):
+        rnd = random.Random(seed)
+        if how == "raw_pipe":
+            r, w = os.pipe()
+            self.f = os.fdopen(r, "rb", buffering=0)
+            wf = os.fdopen(w, "wb", buffering=0)
+            send, done = wf.write, wf.close
+        else:
+            a, b = socket.socketpair()
+            self.f = a.makefile("rb", buffering=0)
+            self._a = a
+
+            def send(piece):
+                b.sendall(piece)
+
+            def done():
+                b.close()
+
+        def feed():
+            try:
+                p = 0
+                while p < len(raw):
+                    k = rnd.choice([1, 100, 227, 4096, 70000, rnd.randrange(1, 200000)])
+                    send(raw[p:p + k])
+                    p += k
+            except (BrokenPipeError, ConnectionError, OSError, ValueError):
+                pass
+            finally:
+                try:
+                    done()
+                except Exception:  # noqa
+                    pass
+        self.t = threading.Thread(target=feed, daemon=True)
+        self.t.start()
+
+    def close(self):
+        try:
+            self.f.close()
+        except Exception:  # noqa
+            pass
+        if hasattr(self, "_a"):
+            try:
+                self._a.close()
+            except Exception:  # noqa
+                pass
+        self.t.join(timeout=5)
+
+
 class Pipe:
     """the read end of an OS pipe that a writer thread fills with `raw` and closes"""
 
@@ -152,21 +315,50 @@ def snapshot_header(h):
             "evlrs": None if h.evlrs is None else [[hx(u), r, hx(dd), hx(p)] for (u, r, dd, p) in map(lasio.vlr_tuple, h.evlrs)]}
 
 
-def snapshot(las, extra_points=b""):
-    """everything the property compares, JSON-able"""
+def snapshot(las, extra_points=b"", enc=hx):
+    """everything the property compares, JSON-able; enc: how the bytes of the records are written down (hex, or — for the
+    data sets of several MiB — what they are relative to the records that were written, see `truth_enc`)"""
     h = las.header
     out = snapshot_header(h)
     pts = extra_points + lasio.rec_bytes(las.points)
     out.update({
             "vlrs": [[hx(u), r, hx(dd), hx(p)] for (u, r, dd, p) in map(lasio.vlr_tuple, las.vlrs)],
             "evlrs": None if las.evlrs is None else [[hx(u), r, hx(dd), hx(p)] for (u, r, dd, p) in map(lasio.vlr_tuple, las.evlrs)],
-            "points": hx(pts), "count": len(pts) // max(1, h.point_format.size),
+            "points": enc(pts), "count": len(pts) // max(1, h.point_format.size),
             "pscales": [lasio.f64bits(x) for x in getattr(las.points, "scales", [])] + [lasio.f64bits(x) for x in getattr(las.points, "offsets", [])]})
     return out
 
 
+# numpy integers as wide as the library's own arithmetic needs (a narrower one overflowing inside the library is not a matter of
+# access paths: not judged here)
+ALT_NP = {"np64": np.int64, "npintp": np.intp}
+ALT_VARIANTS = ["ctor", "mode"] + sorted(ALT_NP)
+STREAM_KINDS = ["BytesIO", "buffered_file", "unbuffered_file", PIPE] + [d[0] for d in DOUBLES]
+
+
+def alt_kind(variant, base):
+    """the same source used through another entry point or with other argument types: `ctor` laspy.LasReader(stream, ..) instead
+    of laspy.open; `mode` laspy.open(source, "r", ..) with the mode given; `np..` the counts given to read_points / chunk_iterator
+    as numpy integers of that type (when the value fits) and read_evlrs as a numpy bool"""
+    return f"alt/{variant}/{base}"
+
+
+def variant_of(kind):
+    return kind.split("/")[1] if kind.startswith("alt/") else ""
+
+
+def alt_text(variant):
+    if variant == "ctor":
+        return "laspy.LasReader(stream)"
+    if variant == "mode":
+        return 'laspy.open(source, "r")'
+    return f"numpy integer arguments ({ALT_NP[variant].__name__})"
+
+
 def make_source(kind, raw, path):
     """returns (source object, double or None, closer)"""
+    if kind.startswith("alt/"):
+        kind = kind.split("/", 2)[2]
     if kind == "path":
         return path, None, None
     if kind == "pathlib":
@@ -184,6 +376,15 @@ def make_source(kind, raw, path):
     if kind == PIPE:
         p = Pipe(raw)
         return p.f, None, p
+    if kind.startswith("short/"):
+        _, policy, seed, base = kind.split("/")
+        if base in RAW:
+            p = RawFed(raw, base, int(seed))
+            return p.f, None, p
+        for lab, sk, ri, hs in DOUBLES:
+            if lab == base:
+                d = ShortDouble(raw, sk, ri, hs, policy, int(seed))
+                return d, d, None
     for lab, sk, ri, hs in DOUBLES:
         if lab == kind:
             d = Double(raw, sk, ri, hs)
@@ -195,7 +396,21 @@ def plan_tok(plan):
     return ",".join(f"{t}{v}" for t, v in plan) if plan else "-"
 
 
-def read_through(kind, raw, path, read_evlrs, plan, route="open"):
+def truth_enc(truth):
+    """records written down relative to the records `truth` that were put in the file: the first so many bytes of them, or
+    where the first difference is (equal byte strings give equal descriptions, different ones different descriptions)"""
+    def enc(b):
+        b = bytes(b)
+        if truth.startswith(b):
+            return f"the first {len(b)} bytes of the records written"
+        m = min(len(b), len(truth))
+        d = np.nonzero(np.frombuffer(b, np.uint8, m) != np.frombuffer(truth, np.uint8, m))[0]
+        k = int(d[0]) if len(d) else m
+        return f"{len(b)} bytes, as written up to byte {k}, crc {zlib.crc32(b):08x}"
+    return enc
+
+
+def read_through(kind, raw, path, read_evlrs, plan, route="open", enc=hx):
     """route "open": laspy.open(source[, read_evlrs=..]) (read_evlrs None: not given), then the consumption plan (("c", k):
     `for chunk in reader.chunk_iterator(k)`, ("p", n): reader.read_points(n)), then read(). Three moments are observed:
     `opened` (the header right after open), `consumed` (the header the reader shows and the records handed out, before
@@ -207,15 +422,30 @@ def read_through(kind, raw, path, read_evlrs, plan, route="open"):
     src, dbl, closer = make_source(kind, raw, path)
     out = {}
     las = None
+    variant = variant_of(kind)
+    npt = ALT_NP.get(variant)
+
+    def num(v):
+        # the count as the caller's numpy integer, when it is one the type holds
+        if npt is None or not (np.iinfo(npt).min <= v <= np.iinfo(npt).max):
+            return v
+        return npt(v)
     try:
         kw = {} if has_close(kind) else {"closefd": False}
         if route == "read":
             las = laspy.read(src, **kw)
-            out["ok"] = snapshot(las)
+            out["ok"] = snapshot(las, enc=enc)
         else:
             if read_evlrs is not None:
-                kw["read_evlrs"] = read_evlrs
-            with laspy.open(src, **kw) as rd:
+                kw["read_evlrs"] = read_evlrs if npt is None else np.bool_(read_evlrs)
+            plan = [(t, num(v)) for (t, v) in plan]
+            if variant == "ctor":
+                opened = laspy.LasReader(src, **kw)
+            elif variant == "mode":
+                opened = laspy.open(src, "r", **kw)
+            else:
+                opened = laspy.open(src, **kw)
+            with opened as rd:
                 out["opened"] = snapshot_header(rd.header)
                 if dbl is not None:
                     out["log_open"] = list(dbl.log)
@@ -231,18 +461,18 @@ def read_through(kind, raw, path, read_evlrs, plan, route="open"):
                         now.append(lasio.rec_bytes(pts))
                 cons = snapshot_header(rd.header)
                 cons["evlrs_attr"] = None if rd.evlrs is None else len(rd.evlrs)
-                cons["points"] = hx(b"".join(now))
+                cons["points"] = enc(b"".join(now))
                 cons["count"] = len(b"".join(now)) // max(1, rd.header.point_format.size)
                 out["consumed"] = cons
                 if dbl is not None:
                     out["log_consumed"] = list(dbl.log)
                 las = rd.read()
                 pre = b"".join(lasio.rec_bytes(p) for p in kept)
-                out["ok"] = snapshot(las, pre)
+                out["ok"] = snapshot(las, pre, enc=enc)
                 if kept:
-                    out["now"] = hx(b"".join(now) + lasio.rec_bytes(las.points))
+                    out["now"] = enc(b"".join(now) + lasio.rec_bytes(las.points))
                     out["chunks"] = [len(x) for x in now]
-            out["late"] = hx(pre + lasio.rec_bytes(las.points))
+            out["late"] = enc(pre + lasio.rec_bytes(las.points))
     except Exception as ex:  # noqa
         out.pop("ok", None)
         out["err"] = common.exc_kind(ex)
@@ -253,14 +483,16 @@ def read_through(kind, raw, path, read_evlrs, plan, route="open"):
     if dbl is not None:
         out["log"] = list(dbl.log)
         out["asked"] = list(dbl.asked)
+        if hasattr(dbl, "short"):
+            out["short_calls"] = dbl.short
     return out
 
 
-def read_mmap(path):
+def read_mmap(path, enc=hx):
     import laspy
     try:
         with laspy.mmap(path) as m:
-            return {"ok": snapshot(m)}
+            return {"ok": snapshot(m, enc=enc)}
     except Exception as ex:  # noqa
         return {"err": common.exc_kind(ex), "msg": f"{type(ex).__name__}: {ex}"[:200]}
 
@@ -385,6 +617,16 @@ def make_files(ctx):
         if bad is None or not evaluable(bad):
             continue
         files.append(dict(f, cls="malformed", raw=bad, label=f["label"].rsplit("/", 1)[0] + "/" + how))
+    # in every run: EVLRs stored BEFORE the points (between the VLRs and the first point), where the header says they are. Not a
+    # layout the specification allows, but one a source that can seek reads (it seeks where the header says), at opening or in
+    # read() alike; a source that cannot seek cannot (it is past them): judged on the sources that can seek only
+    with_ev = [f for f in valid if f["nev"] > 0]
+    for f in rng.sample(with_ev, min(len(with_ev), ctx.n(4, 40))):
+        raw, off, ps, n = f["raw"], f["off"], f["ps"], f["n"]
+        ev = raw[off + n * ps:]
+        bad = patch_u(patch_u(raw[:off] + ev + raw[off:off + n * ps], 96, 4, off + len(ev)), 235, 8, off)
+        if evaluable(bad):
+            files.append(dict(f, cls="malformed", raw=bad, label=f["label"].rsplit("/", 1)[0] + "/evlrs_before_points"))
     return files
 
 
@@ -405,7 +647,8 @@ def configs(ctx, f):
     plans = plans_for(ctx, f["n"])
     kinds = REAL + [PIPE] + [d[0] for d in DOUBLES]
     if f["cls"] == "malformed" and not ctx.thorough():
-        kinds = [d[0] for d in DOUBLES] + [PIPE, rng.choice(REAL)]
+        # the path always: it is the reference of the other sources, and of itself for the timing of the EVLR loading
+        kinds = [d[0] for d in DOUBLES] + [PIPE, "path", rng.choice(REAL[1:])]
     out = []
     for kind in kinds:
         for e in (True, False, None):
@@ -416,6 +659,208 @@ def configs(ctx, f):
                 ps = [plans[0], rng.choice(plans[1:])] if e is None else [rng.choice(plans)]
             for p in ps:
                 out.append((kind, e, p))
+    return out
+
+
+# ---------------------------------------------------------------------------------
+# short-count sources; data sets whose parts cross the usual buffer sizes
+# ---------------------------------------------------------------------------------
+def short_configs(ctx, rng, f, ref_keys):
+    """(short-count kind, read_evlrs, plan) to run on file f: every (read_evlrs, plan) is one the path was run with"""
+    keys = sorted(ref_keys, key=repr)
+    bases = [d[0] for d in DOUBLES]
+    out = []
+    if ctx.thorough():
+        for base in bases:
+            for policy in rng.sample(SHORT_POLICIES, 2):
+                e, ptok = rng.choice(keys)
+                out.append((short_kind(policy, rng.randrange(1000), base), e, parse_plan(ptok)))
+        for base in RAW:
+            e, ptok = rng.choice(keys)
+            out.append((short_kind("os", rng.randrange(1000), base), e, parse_plan(ptok)))
+        return out
+    for _ in range(2):
+        e, ptok = rng.choice(keys)
+        out.append((short_kind(rng.choice(SHORT_POLICIES), rng.randrange(1000), rng.choice(bases)), e, parse_plan(ptok)))
+    if rng.random() < 0.15:
+        e, ptok = rng.choice(keys)
+        out.append((short_kind("os", rng.randrange(1000), rng.choice(RAW)), e, parse_plan(ptok)))
+    return out
+
+
+def alt_configs(ctx, rng, f, ref_keys, on_disk=False):
+    """(alt kind, read_evlrs, plan) on file f: other entry points and numpy arguments, on sources that need no file on disk
+    (unless it is there); the plans are those the path was run with, those with counts first for the numpy variants"""
+    keys = sorted(ref_keys, key=repr)
+    with_counts = [k for k in keys if k[1] != "-"] or keys
+    streams = ["BytesIO", PIPE] + [d[0] for d in DOUBLES] + (["buffered_file", "unbuffered_file"] if on_disk else [])
+    out = []
+    variants = ALT_VARIANTS if ctx.thorough() else rng.sample(ALT_VARIANTS, 2)
+    for variant in variants:
+        for _ in range(ctx.n(1, 3)):
+            e, ptok = rng.choice(with_counts if variant in ALT_NP else keys)
+            base = rng.choice(streams if variant == "ctor" else streams + ["bytes"] + (["path", "pathlib"] if on_disk else []))
+            out.append((alt_kind(variant, base), e, parse_plan(ptok)))
+    return out
+
+
+BOUNDARIES = sorted({8 << 10, 64 << 10, 1 << 20, 2 * io.DEFAULT_BUFFER_SIZE, 3 * io.DEFAULT_BUFFER_SIZE, 16 * io.DEFAULT_BUFFER_SIZE,
+                     128 * io.DEFAULT_BUFFER_SIZE})
+BIG = 8 << 20
+
+
+def sized_recipes(ctx, rng):
+    """the data sets of one run: a part of the file (the point block, the header + VLR block that the second prefetch read
+    fetches, one VLR payload, one EVLR payload) is just over a size at which buffered readers, pipes and chunked copies
+    change behaviour; and in EVERY run one data set whose point block is a bit more than 8 MiB"""
+    pairs = [(v, f) for v in lasio.VERSIONS for f in lasio.COMPAT[v]]
+
+    def recipe(part, bound, version=None, fmt=None, with_evlrs=False):
+        if version is None:
+            version, fmt = rng.choice(pairs)
+        d = rng.choice([0, 1, 1, 2, 17]) if part != "big" else rng.choice([1, 2, 1 + rng.randrange(0, 40000)])
+        rc = {"seed": rng.randrange(1 << 30), "part": part, "bound": bound, "d": d, "version": version, "fmt": fmt,
+              "extra_dims": rng.choice([0, 0, 0, 1]), "n": rng.choice([0, 1, 3, 40]), "vlr_payloads": [rng.choice([0, 3, 200])] * rng.choice([0, 1, 2]),
+              "evlr_payloads": []}
+        if version == "1.4":
+            rc["evlr_payloads"] = [rng.choice([0, 5, 300]) for _ in range(rng.choice([1, 2] if with_evlrs else [0, 1, 2]))]
+        if part == "many_evlrs":
+            rc["evlr_payloads"] = [rng.choice([0, 0, 1, 9]) for _ in range(rng.choice([255, 256, 257, 300]))]
+        elif part == "many_vlrs":
+            rc["vlr_payloads"] = [rng.choice([0, 0, 1, 9]) for _ in range(rng.choice([255, 256, 257, 300]))]
+        if part == "vlrs":
+            rem, pl = bound - 150 + rng.randrange(0, 400), []
+            while rem > 54:
+                k = min(65535, rem - 54)
+                pl.append(k)
+                rem -= 54 + k
+            rc["vlr_payloads"] = pl
+        elif part == "vlr_payload":
+            rc["vlr_payloads"] = [rng.choice([65535, 65534, 65535 - 54, 8192 + d, 2 * 8192 + d])] + rc["vlr_payloads"]
+        elif part == "evlr":
+            rc["evlr_payloads"] = [bound + d] + [rng.choice([0, 7])] * rng.choice([0, 1])
+            if rng.random() < 0.5:
+                rc["evlr_payloads"].reverse()
+        # unused bytes between the last point and the first EVLR (legal; laspy never writes them): the part "gap" has bound + d of them
+        if part == "gap":
+            rc["gap"] = bound + d
+        elif rc["evlr_payloads"] and rng.random() < 0.4:
+            rc["gap"] = rng.choice([1, 2, 61, 4096, 8193])
+        return rc
+    def f14():
+        return rng.choice(lasio.COMPAT["1.4"])
+    # every run: a point block of a bit more than 8 MiB, once followed by EVLRs (what comes after the block is read from where
+    # the block ended when the source cannot seek), once in any version / format
+    out = [recipe("big", BIG, "1.4", f14(), with_evlrs=True), recipe("big", BIG)]
+    if ctx.thorough():
+        out += [recipe("big", b) for b in (BIG, 16 << 20, 32 << 20, 64 << 20)]
+        for b in BOUNDARIES:
+            out += [recipe("points", b), recipe("points", b, "1.4", f14(), with_evlrs=True), recipe("evlr", b, "1.4", f14()), recipe("vlrs", b)]
+        out += [recipe("vlr_payload", 65535) for _ in range(3)]
+        out += [recipe("many_evlrs", 256, "1.4", f14()), recipe("many_vlrs", 256)]
+        out += [recipe("aligned", b) for b in (io.DEFAULT_BUFFER_SIZE, 4096, 65536)] + [recipe("aligned", io.DEFAULT_BUFFER_SIZE, "1.4", f14(), with_evlrs=True)]
+        out += [recipe("gap", b, "1.4", f14(), with_evlrs=True) for b in BOUNDARIES + [BIG]]
+    else:
+        out += [recipe("points", rng.choice(BOUNDARIES)), recipe("points", rng.choice(BOUNDARIES[-3:]), "1.4", f14(), with_evlrs=True),
+                recipe("evlr", rng.choice(BOUNDARIES), "1.4", f14()), recipe("evlr", rng.choice(BOUNDARIES[-3:]), "1.4", f14()),
+                recipe("vlrs", rng.choice(BOUNDARIES)), recipe("vlr_payload", 65535),
+                rng.choice([recipe("many_evlrs", 256, "1.4", f14()), recipe("many_vlrs", 256)]),
+                recipe("aligned", rng.choice([io.DEFAULT_BUFFER_SIZE, 4096, 65536]), *rng.choice([(None, None), ("1.4", f14(), True)])),
+                recipe("gap", rng.choice(BOUNDARIES), "1.4", f14(), with_evlrs=True)]
+    return out
+
+
+def make_sized(rc):
+    """the file of a recipe (deterministic), written by laspy; like an entry of make_files, the records kept as bytes"""
+    import laspy
+    r = random.Random(rc["seed"])
+    g = np.random.default_rng(rc["seed"])
+
+    def payload(k):
+        return g.integers(0, 256, k, dtype=np.uint8).tobytes()
+    h = lasio.rand_header(r, version=rc["version"], fmt=rc["fmt"], nvlrs=0)
+    if rc["extra_dims"]:
+        lasio.add_extra_dims(r, h, k=rc["extra_dims"])
+    for i, k in enumerate(rc["vlr_payloads"]):
+        h.vlrs.append(laspy.VLR(user_id="sized%d" % i, record_id=i, description="v" * (i % 33), record_data=payload(k)))
+    ps = h.point_format.size
+    n = rc["bound"] // ps + rc["d"] if rc["part"] in ("points", "big") else rc["n"]
+    if rc["part"] == "aligned":         # the point block is EXACTLY d times the smallest multiple of the bound that holds whole records
+        n = rc["bound"] // math.gcd(ps, rc["bound"]) * max(1, rc["d"])
+    pts = laspy.PackedPointRecord.zeros(n, h.point_format)
+    data = payload(n * ps)
+    pts.array = np.frombuffer(data, dtype=np.uint8).view(pts.array.dtype).copy()
+    evl = laspy.vlrs.vlrlist.VLRList([laspy.VLR(user_id="sizedE%d" % i, record_id=65535 - i, description="e" * (i % 33), record_data=payload(k))
+                                      for i, k in enumerate(rc["evlr_payloads"])])
+    raw = lasio.write_las(h, pts, evl)
+    if rc.get("gap") and len(evl):
+        st = int.from_bytes(raw[235:243], "little")
+        raw = patch_u(raw[:st] + payload(rc["gap"]) + raw[st:], 235, 8, st + rc["gap"])
+    nvl = len(h.vlrs)
+    label = f"{rc['version']}/fmt{rc['fmt']}/n{n}/evlrs{len(evl)}/{rc['part']} over {rc['bound']} bytes (+{rc['d']})"
+    if rc["part"] == "aligned":
+        label = f"{rc['version']}/fmt{rc['fmt']}/n{n}/evlrs{len(evl)}/point block of {n * ps} bytes = {n * ps // rc['bound']} x {rc['bound']}"
+    if rc.get("gap") and len(evl):
+        label += f", gap of {rc['gap']} bytes before the EVLRs"
+    return {"version": rc["version"], "fmt": rc["fmt"], "n": n, "nev": len(evl), "ps": ps, "off": int.from_bytes(raw[96:100], "little"),
+            "extra_dims": len(list(h.point_format.extra_dimensions)), "cls": "valid", "raw": raw, "label": label, "recipe": rc,
+            "truth_bytes": data,
+            "truth": {"points": None, "vlrs": nvl,
+                      "evlrs": None if rc["version"] != "1.4" else [[hx(u), r_, hx(dd), hx(p)] for (u, r_, dd, p) in map(lasio.vlr_tuple, evl)]}}
+
+
+def sized_configs(ctx, rng, f):
+    """every access path reads the data set in ONE call (read() alone); then other single calls (read_points(n), one chunk
+    of n points, read_points(-1)) and chunk sizes whose bytes are just over a boundary"""
+    n, ps = f["n"], f["ps"]
+    big = f["recipe"]["part"] == "big"
+    kinds = REAL + [PIPE] + [d[0] for d in DOUBLES]
+    one_call = [[("p", n)], [("p", -1)], [("c", n)], [("c", n + 3)], [("p", n + 1)]]
+    chunked = [[("c", b // ps + 1)] for b in BOUNDARIES + [BIG] if 0 < (n * ps) // (b + ps) < 300] or [[("c", max(1, n // 2))]]
+    chunked += [[("p", max(1, b // ps + 1)), ("p", -1)] for b in BOUNDARIES + [BIG] if b < n * ps]
+    runs = []
+    for kind in kinds:
+        runs.append((kind, rng.choice([True, False, None]), []))
+        if ctx.thorough() or not big or rng.random() < 0.25:
+            runs.append((kind, rng.choice([True, False, None]), rng.choice(one_call if n else one_call[:2])))
+        if n and (ctx.thorough() or rng.random() < (0.15 if big else 0.5)):
+            runs.append((kind, rng.choice([True, False]), rng.choice(chunked)))
+    keys = {(e, plan_tok(plan)) for (_, e, plan) in runs}
+    runs = [("path", e, parse_plan(ptok)) for (e, ptok) in sorted(keys, key=repr) if ("path", e, parse_plan(ptok)) not in runs] + runs
+    shorts = []
+    for _ in range(ctx.n(2, 8)):
+        e, ptok = rng.choice(sorted(keys, key=repr))
+        base = rng.choice([d[0] for d in DOUBLES] + ([] if big else list(RAW)))
+        shorts.append((short_kind(rng.choice(SHORT_BIG) if base not in RAW else "os", rng.randrange(1000), base), e, parse_plan(ptok)))
+    return runs, shorts
+
+
+def observe_sized(ctx, rng, tmp):
+    out = []
+    path = os.path.join(tmp, "s.las")
+    for rc in sized_recipes(ctx, rng):
+        f = make_sized(rc)
+        enc = truth_enc(f["truth_bytes"])
+        f["truth"]["points"] = enc(f["truth_bytes"])
+        with open(path, "wb") as fh:
+            fh.write(f["raw"])
+        rec = dict(f, runs=[], reads=[], short_runs=[])
+        rec["ref"] = read_through("path", f["raw"], path, True, [], enc=enc)
+        runs, shorts = sized_configs(ctx, rng, f)
+        for (kind, e, plan) in runs:
+            rec["runs"].append(((kind, e, plan), read_through(kind, f["raw"], path, e, plan, enc=enc)))
+        for (kind, e, plan) in shorts:
+            rec["short_runs"].append(((kind, e, plan), read_through(kind, f["raw"], path, e, plan, enc=enc)))
+        rec["alt_runs"] = []
+        for (kind, e, plan) in alt_configs(ctx, rng, f, {(e, plan_tok(plan)) for (k, e, plan) in runs if k == "path"}, on_disk=True):
+            rec["alt_runs"].append(((kind, e, plan), read_through(kind, f["raw"], path, e, plan, enc=enc)))
+        for kind in REAL + [PIPE] + [d[0] for d in DOUBLES]:
+            if ctx.thorough() or rc["part"] != "big" or rng.random() < 0.4:
+                rec["reads"].append((kind, read_through(kind, f["raw"], path, None, [], route="read", enc=enc)))
+        rec["mmap"] = read_mmap(path, enc=enc)
+        rec["head"] = f["raw"][:400]
+        del rec["raw"], rec["truth_bytes"]         # several MiB each: the recipe makes them again
+        out.append(rec)
     return out
 
 
@@ -445,6 +890,18 @@ def observe(ctx):
             rec["mmap"] = read_mmap(path)
             obs["files"].append(rec)
         obs["edits"] = observe_edits(ctx, files, tmp)
+        # short-count sources (no model: the oracle judges them) and the data sets that cross buffer-size boundaries
+        srng = random.Random(ctx.seed * 7919 + 17)
+        for rec in obs["files"]:
+            rec["short_runs"] = []
+            ref_keys = {(e, plan_tok(plan)) for (k, e, plan), _ in rec["runs"] if k == "path"} or {(e, plan_tok(plan)) for (k, e, plan), _ in rec["runs"]}
+            if rec["cls"] != "malformed":       # short counts where they are the point: files that every source must read alike
+                for (kind, e, plan) in short_configs(ctx, srng, rec, ref_keys):
+                    rec["short_runs"].append(((kind, e, plan), read_through(kind, rec["raw"], path, e, plan)))
+            rec["alt_runs"] = []
+            for (kind, e, plan) in alt_configs(ctx, srng, rec, ref_keys):
+                rec["alt_runs"].append(((kind, e, plan), read_through(kind, rec["raw"], path, e, plan)))
+        obs["sized"] = observe_sized(ctx, srng, tmp)
     finally:
         shutil.rmtree(tmp, ignore_errors=True)
     _OBS = obs
@@ -654,16 +1111,18 @@ def observe_edits(ctx, files, tmp):
 # ---------------------------------------------------------------------------------
 def caps_of(kind):
     """(can seek, has readinto)"""
+    kind = base_kind(kind)
     for lab, sk, ri, hs in DOUBLES:
         if lab == kind:
             return sk, ri
-    if kind == PIPE:
+    if kind == PIPE or kind in RAW:
         return False, True
     return True, True
 
 
 def has_close(kind):
     """False for the bare doubles: no seekable method, no close (opened with closefd=False)"""
+    kind = base_kind(kind)
     for lab, sk, ri, hs in DOUBLES:
         if lab == kind:
             return hs
@@ -741,6 +1200,70 @@ def edit_fields(ed):
     return out
 
 
+def read_exact_py(src, n, into):
+    """asks the source again until n bytes are there or a call gives nothing — what Model/Access.v calls read_exact"""
+    if into:
+        buf = bytearray(n)
+        view, got = memoryview(buf), 0
+        while got < n:
+            k = src.readinto(view[got:])
+            if not k:
+                break
+            got += k
+        return bytes(buf[:got])
+    out = b""
+    while len(out) < n:
+        d = src.read(n - len(out))
+        if not d:
+            break
+        out += d
+    return out
+
+
+def short_double_cases(ctx):
+    """the short-count doubles of the search are short-count sources of the model: one call, and the loop that asks again,
+    on random byte strings: [(model command, what the double did)]"""
+    rng = random.Random(ctx.seed * 31 + 5)
+    out = []
+    for _ in range(ctx.n(150, 1500)):
+        raw = bytes(rng.randrange(256) for _ in range(rng.choice([0, 1, 10, 60, 300, 300, 700, 700])))
+        pos = rng.choice([0, 0, 1, len(raw) // 2, len(raw), len(raw) + 2])
+        n = rng.choice([0, 1, 7, 60, 61, 299, 300, 301, 650, 699, 700, 701, 1000])
+        into = rng.random() < 0.5
+        policy = rng.choice([p for p in SHORT_POLICIES if p != "k65536"])
+        d = ShortDouble(raw, True, True, True, policy, rng.randrange(1000))
+        d._b.seek(pos)
+        if rng.random() < 0.4:
+            data = (lambda b: bytes(b[:d.readinto(b)]))(bytearray(n)) if into else d.read(n)
+            cap = d.caps_used[0] if d.caps_used else n
+            out.append((f"shortcall {tf(into)} {cap} {n} {pos} {common.hexb(raw)}", (data, d._b.tell(), list(d.log)), policy))
+        else:
+            data = read_exact_py(d, n, into)
+            caps = ",".join(str(c) for c in d.caps_used) or "-"
+            out.append((f"exact {tf(into)} {caps} {n} {pos} {common.hexb(raw)}", (data, d._b.tell(), list(d.log)), policy))
+    return out
+
+
+def run_model_par(cmds, k=6):
+    """common.run_model on k processes: the driver keeps no state between lines, the commands are cut into k runs of about the
+    same number of bytes and the answers put together in order"""
+    if len(cmds) < 4 * k:
+        return common.run_model(cmds, name=DRIVER)
+    total = sum(len(c) for c in cmds)
+    parts, cur, acc = [], [], 0
+    for c in cmds:
+        cur.append(c)
+        acc += len(c)
+        if acc >= total / k and len(parts) < k - 1:
+            parts.append(cur)
+            cur, acc = [], 0
+    if cur:
+        parts.append(cur)
+    with ThreadPoolExecutor(max_workers=k) as ex:
+        outs = list(ex.map(lambda part: common.run_model(part, name=DRIVER), parts))
+    return [line for part in outs for line in part]
+
+
 def correspond(ctx):
     ctx.extra["rule"] = (
         "files written by laspy for every (version, format) x point counts {0,1,2,7,..} x {no EVLR, 1-3 EVLRs} (1.4), 25% with extra "
@@ -753,7 +1276,14 @@ def correspond(ctx):
         "consumption and when everything is read (records kept by the caller and looked at after the last read), through laspy.read, and "
         "through laspy.mmap; every dimension (and x, y, z, xyz) of one file per format is assigned through the map by every route (whole "
         "dimension by attribute / item / record / record array / full slice, element, slice and mask of the view). non-trivial = the file "
-        "has points or EVLRs; distinct by (file label, source kind, read_evlrs, plan)")
+        "has points or EVLRs; distinct by (file label, source kind, read_evlrs, plan). Search only: per run 11 data sets (seeded recipes) "
+        "of which one part is just over 8 KiB / 64 KiB / 1 MiB / k * io.DEFAULT_BUFFER_SIZE (point block, header + VLR block, one VLR "
+        "payload of up to 65535 bytes, one EVLR payload, the gap between the last point and the first EVLR, 255-300 VLRs or EVLRs) or over 8 MiB (two point blocks per run; 16-64 MiB in "
+        "the thorough tier), read in one call and by boundary-crossing chunks through the 13 source kinds, laspy.read and laspy.mmap; and "
+        "on every file 2-3 runs (thorough: 20) through short-count sources: the six doubles with read/readinto capped by a policy (1, 7, "
+        "227, 4096, 65536 bytes, half, all but one, random, every other call) and a raw pipe / socket fed in random pieces; and 2 (21) runs "
+        "through laspy.LasReader(stream) / laspy.open(source, 'r') / with numpy int64 / intp counts and a numpy bool as read_evlrs. 150 (1500) "
+        "calls and ask-again loops of the short-count doubles are compared with the model's s_read_short / read_exact")
     obs = observe(ctx)
     cmds, meta = [], []
     for fi, f in enumerate(obs["files"]):
@@ -787,9 +1317,13 @@ def correspond(ctx):
         meta.append(("setdim", ei, len(flds)))
         cmds.append("file " + common.hexb(ed["raw_after"]))
         meta.append(("file", ei, None))
+    shorts = short_double_cases(ctx)
+    for si, (cmd, _, _) in enumerate(shorts):
+        cmds.append(cmd)
+        meta.append(("short", si, None))
     cmds.append("default")
     meta.append(("default", None, None))
-    outs = common.run_model(cmds, name=DRIVER)
+    outs = run_model_par(cmds)
     # edits of several fields (xyz): chain the remaining fields on the model's output
     more, more_meta = [], []
     for (what, a, b), line in zip(meta, outs):
@@ -904,6 +1438,19 @@ def correspond(ctx):
             d = differs(model, {"ok": ed["read_snapshot"]})
             if d:
                 add("read after mmap edit: " + d[0], {"file": ed["file"], "dim": ed["dim"], "route": ed["route"]}, str(d[1])[:120], str(d[2])[:120])
+        elif what == "short":
+            cmd, (data, pos, log), policy = shorts[a]
+            ctx.traces += 1
+            ctx.count("short-count double vs model: " + cmd.split(" ")[0] + "/" + policy)
+            ctx.case(("short", cmd), nontrivial=len(data) > 0)
+            parts = line.split(" | ")
+            impl = f"{common.hexb(data)} | {pos} | {','.join(log) or '-'}"
+            mine = " | ".join(parts[:3])
+            if mine != impl:
+                add("short-count double: one call" if cmd.startswith("shortcall") else "short-count double: asking again until the bytes are there",
+                    {"command": cmd[:300]}, mine[:200], impl[:200])
+            elif cmd.startswith("exact") and parts[3:] != ["T"]:
+                add("model: asking again differs from the one call of a source that is never short", {"command": cmd[:300]}, line[:200], "")
         elif what == "default":
             ctx.traces += 1
             ctx.extra["default_read_evlrs_in_model"] = line
@@ -942,6 +1489,8 @@ def src_name(kind):
     sk, _ = caps_of(kind)
     if not has_close(kind):
         return "a source that offers only read()"
+    if base_kind(kind) in RAW:
+        return "an unbuffered pipe / socket"
     if kind == PIPE:
         return "a pipe"
     if kind in CREATED:
@@ -961,18 +1510,21 @@ def judge(raw, cls, kind, e, plan, ref, ref_same, got):
     out = []
     needs = needs_evlrs(raw)
     arg = "not given" if e is None else e
-    # 1. everything read
-    if cls != "gap" or sk:
-        d = same_read(ref, got)
-        if d:
-            part = d.split(":")[0].split(" ")[0]
-            out.append((f"{part} differ from the path read: {src}, {cls} file", d))
+    # 1. everything read (a gap between the last point and the first EVLR included: a source that cannot seek reads and drops it)
+    d = same_read(ref, got)
+    if d:
+        part = d.split(":")[0].split(" ")[0]
+        out.append((f"{part} differ from the path read: {src}, {cls} file", d))
     # 2. what was handed out does not change afterwards
     if "ok" in got:
         if "now" in got and got["now"] != got["ok"]["points"]:
-            k = next((i for i in range(0, len(got["now"]), 2) if got["now"][i:i + 2] != got["ok"]["points"][i:i + 2]), 0) // 2
+            if got["now"].startswith(("the first", "0 bytes")) or " bytes, as written" in got["now"]:
+                k = f"handed out: {got['now']}; once everything is read: {got['ok']['points']}"
+            else:
+                k = "byte %d of the records differs once everything is read" % (
+                    next((i for i in range(0, len(got["now"]), 2) if got["now"][i:i + 2] != got["ok"]["points"][i:i + 2]), 0) // 2)
             out.append((f"records handed out by an earlier read changed when later ones were read: {'source with readinto' if caps_of(kind)[1] else 'source without readinto'}",
-                        f"chunks of {got.get('chunks')} bytes kept by the caller; byte {k} of the records differs once everything is read"))
+                        f"chunks of {str(got.get('chunks'))[:120]} bytes kept by the caller; {k}"))
         if "late" in got and got["late"] != got["ok"]["points"]:
             out.append(("records changed when the reader was closed", "the records of the result differ after leaving the with-block"))
     # 3. just opened, and consumed without read(): the same header; EVLRs as by path, or left for read() when the source
@@ -1042,87 +1594,148 @@ def judge_edit(ed):
     return out
 
 
-def search(ctx, seeds):
-    obs = observe(ctx)
-    failing, seen = [], set()
+def file_input(f, **kw):
+    """the part of a failing input that says which file: its bytes, or (data sets of several MiB) the recipe that makes it"""
+    d = {"file": f["label"], "class": f["cls"]}
+    d.update(kw)
+    if "recipe" in f:
+        d["recipe"] = f["recipe"]
+    else:
+        d["file_hex"] = f["raw"].hex()
+    return d
 
-    def add(kind, inp, why):
-        if kind not in seen and len(failing) < 8:
-            seen.add(kind)
-            failing.append({"kind": kind, "input": inp, "observed": why})
-    for f in obs["files"]:
-        ref = f["ref"]
-        full = f["cls"] != "malformed"      # valid, trailing, gap, truncated: the result must not depend on the source
-        if full:
-            if "err" in ref and f["cls"] != "truncated":
-                add("a file written by laspy cannot be read by path", {"file": f["label"], "file_hex": f["raw"].hex()}, ref.get("msg"))
-                continue
-        if full and "ok" in ref:
-            t = f["truth"]
-            tp = t["points"] if f["cls"] != "truncated" else t["points"][:2 * f["stored"] * f["ps"]]
-            te = t["evlrs"] if f["cls"] != "truncated" else ref["ok"]["evlrs"]
-            if ref["ok"]["points"] != tp or ref["ok"]["evlrs"] != te or len(ref["ok"]["vlrs"]) != t["vlrs"]:
-                add("the path read differs from what was written", {"file": f["label"], "class": f["cls"], "kind": "path", "file_hex": f["raw"].hex()},
-                    f"records equal: {ref['ok']['points'] == tp} ({ref['ok']['count']} read, {f.get('stored', f['n'])} stored); "
-                    f"evlrs equal: {ref['ok']['evlrs'] == te}; vlrs {len(ref['ok']['vlrs'])} read, {t['vlrs']} written")
-            if f["cls"] != "truncated" and ref["opened"]["evlrs"] != t["evlrs"]:
-                add("just opened by path (read_evlrs=True): evlrs differ from what was written", {"file": f["label"], "class": f["cls"], "kind": "path",
-                    "read_evlrs": True, "plan": "-", "stage": "opened", "file_hex": f["raw"].hex()}, f"{ref['opened']['evlrs']!r}"[:200])
-        ref_same = {}
-        for (kind, e, plan), got in f["runs"]:
-            if kind == "path":
-                ref_same[(e, plan_tok(plan))] = got
-        for (kind, e, plan), got in f["runs"]:
+
+def judge_file(ctx, f, add, add_short):
+    """the property on everything that was observed on one file"""
+    ref = f["ref"]
+    head = f.get("head", f.get("raw"))
+    sized = "recipe" in f
+    full = f["cls"] != "malformed"      # valid, trailing, gap, truncated: the result must not depend on the source
+    if full:
+        if "err" in ref and f["cls"] != "truncated":
+            add("a file written by laspy cannot be read by path", file_input(f), ref.get("msg"))
+            return
+    if full and "ok" in ref:
+        t = f["truth"]
+        tp = t["points"] if f["cls"] != "truncated" else t["points"][:2 * f["stored"] * f["ps"]]
+        te = t["evlrs"] if f["cls"] != "truncated" else ref["ok"]["evlrs"]
+        if ref["ok"]["points"] != tp or ref["ok"]["evlrs"] != te or len(ref["ok"]["vlrs"]) != t["vlrs"]:
+            add("the path read differs from what was written", file_input(f, kind="path"),
+                f"records equal: {ref['ok']['points'] == tp} ({ref['ok']['count']} read, {f.get('stored', f['n'])} stored); "
+                f"evlrs equal: {ref['ok']['evlrs'] == te}; vlrs {len(ref['ok']['vlrs'])} read, {t['vlrs']} written")
+        if f["cls"] != "truncated" and ref["opened"]["evlrs"] != t["evlrs"]:
+            add("just opened by path (read_evlrs=True): evlrs differ from what was written",
+                file_input(f, kind="path", read_evlrs=True, plan="-", stage="opened"), f"{ref['opened']['evlrs']!r}"[:200])
+    ref_same = {}
+    for (kind, e, plan), got in f["runs"]:
+        if kind == "path":
+            ref_same[(e, plan_tok(plan))] = got
+    # whatever the file, well formed or not: on a source that can seek, loading the EVLRs when the file is opened or leaving them
+    # to read() gives the same outcome (the same function runs, sooner or later); judged on the path, which runs every
+    # (read_evlrs, plan)
+    for (e, ptok), got in sorted(ref_same.items(), key=repr):
+        other = ref_same.get((True, ptok))
+        if e is True or other is None:
+            continue
+        if ("err" in got) != ("err" in other):
+            d = f"outcome: {other.get('err', 'ok')} {other.get('msg', '')} with read_evlrs=True, {got.get('err', 'ok')} {got.get('msg', '')} here"
+        else:
+            d = same_read(other, got)
+        if d:
+            add(f"by path, {'a malformed' if not full else 'a ' + f['cls']} file: read_evlrs={'not given' if e is None else e} changes what read_evlrs=True gives ({d.split(':')[0].split(' ')[0]})",
+                file_input(f, kind="path", read_evlrs=e, plan=ptok, timing=True), d)
+    for short, runs in ((False, f["runs"]), (True, f.get("short_runs", [])), (False, f.get("alt_runs", []))):
+        for (kind, e, plan), got in runs:
             sk, _ = caps_of(kind)
-            inp = {"file": f["label"], "class": f["cls"], "kind": kind, "read_evlrs": e, "plan": plan_tok(plan), "file_hex": f["raw"].hex()}
+            inp = file_input(f, kind=kind, read_evlrs=e, plan=plan_tok(plan))
+            variant = variant_of(kind)
+            put = add_short if short else add
+            if variant:
+                # every failure of another entry point / of numpy arguments has a kind that starts with what it is
+                def put(k, i, w, _t=alt_text(variant)):
+                    add_short(_t + ": " + k, i, w, bucket="alt")
+            if short or sized or variant:
+                # these runs are not compared with the model: they are counted here
+                ctx.count("kind:" + ("short counts/" + base_kind(kind) if short else kind) + (" (size boundary)" if sized else ""))
+                if short:
+                    ctx.count("short counts: " + kind.split("/")[1] + (": no call came back short" if got.get("short_calls") == 0 else ""))
+                ctx.case((f["label"], kind, e, plan_tok(plan)), nontrivial=(f["n"] > 0 or f["nev"] > 0))
             if full:
-                for (k, why) in judge(f["raw"], f["cls"], kind, e, plan, ref, ref_same.get((e, plan_tok(plan))), got):
-                    add(k, inp, why)
+                for (k, why) in judge(head, f["cls"], kind, e, plan, ref, ref_same.get((e, plan_tok(plan))), got):
+                    put(k, inp, why)
             elif sk and kind != "path" and not (f["label"].endswith("/small_offset")):
                 # a malformed file: every source that can seek must do what the path does, at every stage
                 rs = ref_same.get((e, plan_tok(plan)))
                 if rs is not None:
                     d = same_read(rs, got)
                     if d:
-                        add(f"{d.split(':')[0].split(' ')[0]} differ from the path read: {src_name(kind)}, malformed file", inp, d)
+                        put(f"{d.split(':')[0].split(' ')[0]} differ from the path read: {src_name(kind)}, malformed file", inp, d)
             # whatever the file: a source that does not say it can seek is never asked to seek or tell, and a source is
             # only asked for what it offers
             if "log" in got and not sk:
                 bad = [t for t in got["log"] if t[0] in "st"] + [a for a in got["asked"] if a in ("seek", "tell")]
                 if bad:
-                    add(f"non-seekable source asked to seek/tell ({f['cls'] if f['cls'] in ('malformed', 'truncated') else 'valid'} file)", inp,
+                    put(f"non-seekable source asked to seek/tell ({f['cls'] if f['cls'] in ('malformed', 'truncated') else 'valid'} file)", inp,
                         f"calls {bad[:6]} in {got['log'][:12]}; outcome {got.get('err', 'ok')} {got.get('msg', '')}")
             if "asked" in got and not has_close(kind):
                 extra = sorted(set(got["asked"]) - {"readinto", "seekable"})
                 if extra:
-                    add("a source that offers only read() was asked for something else", inp, f"attributes {extra}; outcome {got.get('err', 'ok')} {got.get('msg', '')}")
-        if full:
-            for kind, got in f["reads"]:
-                if f["cls"] == "gap" and not caps_of(kind)[0]:
-                    continue
-                d = same_read(ref, got)
-                if d:
-                    add(f"laspy.read: {d.split(':')[0].split(' ')[0]} differ from the path read: {src_name(kind)}, {f['cls']} file",
-                        {"file": f["label"], "class": f["cls"], "kind": kind, "route": "laspy.read", "file_hex": f["raw"].hex()}, d)
-                if "log" in got and not caps_of(kind)[0]:
-                    bad = [t for t in got["log"] if t[0] in "st"] + [a for a in got["asked"] if a in ("seek", "tell")]
-                    if bad:
-                        add("non-seekable source asked to seek/tell (laspy.read)", {"file": f["label"], "class": f["cls"], "kind": kind, "route": "laspy.read",
-                                                                                       "file_hex": f["raw"].hex()}, f"calls {bad[:6]}")
-        if f["cls"] in ("valid", "trailing", "gap"):
-            d = same_read(ref, f["mmap"])
+                    put("a source that offers only read() was asked for something else", inp, f"attributes {extra}; outcome {got.get('err', 'ok')} {got.get('msg', '')}")
+    if full:
+        for kind, got in f["reads"]:
+            if sized:
+                ctx.count("route:laspy.read (size boundary)")
+                ctx.case((f["label"], kind, "laspy.read"), nontrivial=True)
+            d = same_read(ref, got)
             if d:
-                add(f"{d.split(':')[0].split(' ')[0]} differ from the path read: mmap, {f['cls']} file",
-                    {"file": f["label"], "class": f["cls"], "kind": "mmap", "file_hex": f["raw"].hex()}, d)
-            elif "ok" in f["mmap"] and f["mmap"]["ok"]["count"] != f["n"]:
-                add("mmap record count differs from the header's", {"file": f["label"], "kind": "mmap", "file_hex": f["raw"].hex()},
-                    f"{f['mmap']['ok']['count']} records, header says {f['n']}")
+                add(f"laspy.read: {d.split(':')[0].split(' ')[0]} differ from the path read: {src_name(kind)}, {f['cls']} file",
+                    file_input(f, kind=kind, route="laspy.read"), d)
+            if "log" in got and not caps_of(kind)[0]:
+                bad = [t for t in got["log"] if t[0] in "st"] + [a for a in got["asked"] if a in ("seek", "tell")]
+                if bad:
+                    add("non-seekable source asked to seek/tell (laspy.read)", file_input(f, kind=kind, route="laspy.read"), f"calls {bad[:6]}")
+    if f["cls"] in ("valid", "trailing", "gap"):
+        if sized:
+            ctx.count("kind:mmap (size boundary)")
+            ctx.case((f["label"], "mmap"), nontrivial=True)
+        d = same_read(ref, f["mmap"])
+        if d:
+            add(f"{d.split(':')[0].split(' ')[0]} differ from the path read: mmap, {f['cls']} file", file_input(f, kind="mmap"), d)
+        elif "ok" in f["mmap"] and f["mmap"]["ok"]["count"] != f["n"]:
+            add("mmap record count differs from the header's", file_input(f, kind="mmap"),
+                f"{f['mmap']['ok']['count']} records, header says {f['n']}")
+
+
+def search(ctx, seeds):
+    obs = observe(ctx)
+    failing, seen = [], set()
+    later = {"alt": [], "short": []}
+
+    def add(kind, inp, why):
+        if kind not in seen and len(failing) < 8:
+            seen.add(kind)
+            failing.append({"kind": kind, "input": inp, "observed": why})
+
+    def add_short(kind, inp, why, bucket="short"):
+        # every failure on a source that returns short counts has a kind that starts with SHORT_PREFIX (and nothing else has),
+        # every failure of another entry point / of numpy arguments one that starts with its name; they come after the others,
+        # three of each
+        if bucket == "short":
+            kind = SHORT_PREFIX + kind
+        if kind not in seen and len(later[bucket]) < 3:
+            seen.add(kind)
+            later[bucket].append({"kind": kind, "input": inp, "observed": why})
+    for f in obs["sized"]:
+        ctx.count("size boundary: " + f["recipe"]["part"] + " over " + str(f["recipe"]["bound"]))
+        judge_file(ctx, f, add, add_short)
+    for f in obs["files"]:
+        judge_file(ctx, f, add, add_short)
     for ed in obs["edits"]:
         inp = {"file": ed["file"], "kind": "mmap-edit", "dim": ed["dim"], "route": ed["route"], "sel": ed.get("sel"), "value": ed.get("value"),
                "file_hex": ed["raw_before"].hex()}
         for (k, why) in judge_edit(ed):
             add(k, inp, why)
-    return failing
+    return failing + later["alt"] + later["short"]
 
 
 def replay_edit(inp):
@@ -1179,37 +1792,55 @@ def parse_plan(tok):
 
 def replay(ctx, data):
     inp = data.get("failing_input", {}).get("input") or {}
-    if "file_hex" not in inp or "kind" not in inp:
+    if ("file_hex" not in inp and "recipe" not in inp) or ("kind" not in inp and "recipe" not in inp):
         print("replay: re-run ./check C17 with the same VERIF_SEED; the failing case is described in the file")
         return 0
-    if inp["kind"] == "mmap-edit":
+    if inp.get("kind") == "mmap-edit":
         return replay_edit(inp)
-    raw = bytes.fromhex(inp["file_hex"])
+    enc = hx
+    if "recipe" in inp:
+        f = make_sized(inp["recipe"])
+        raw, enc = f["raw"], truth_enc(f["truth_bytes"])
+    else:
+        raw = bytes.fromhex(inp["file_hex"])
+    kind = inp.get("kind", "path")
     tmp = tempfile.mkdtemp(prefix="c17_", dir="/var/tmp")
     try:
         path = os.path.join(tmp, "f.las")
         with open(path, "wb") as fh:
             fh.write(raw)
-        ref = read_through("path", raw, path, True, [])
-        if inp["kind"] == "mmap":
-            got = read_mmap(path)
-            bad = [d for d in [same_read(ref, got)] if d]
+        ref = read_through("path", raw, path, True, [], enc=enc)
+        bad = []
+        if "recipe" in inp:
+            if "err" in ref:
+                bad.append("by path: " + ref.get("msg", ref["err"]))
+            elif ref["ok"]["points"] != enc(f["truth_bytes"]) or ref["ok"]["evlrs"] != f["truth"]["evlrs"]:
+                bad.append("the path read differs from what was written: " + ref["ok"]["points"])
+        if kind == "mmap":
+            got = read_mmap(path, enc=enc)
+            bad += [d for d in [same_read(ref, got)] if d]
         elif inp.get("route") == "laspy.read":
-            got = read_through(inp["kind"], raw, path, None, [], route="read")
-            bad = [d for d in [same_read(ref, got)] if d]
+            got = read_through(kind, raw, path, None, [], route="read", enc=enc)
+            bad += [d for d in [same_read(ref, got)] if d]
         else:
             e, plan = inp.get("read_evlrs", True), parse_plan(inp.get("plan"))
-            got = read_through(inp["kind"], raw, path, e, plan)
-            ref_same = read_through("path", raw, path, e, plan)
-            if inp.get("class") == "malformed":
-                bad = [d for d in [same_read(ref_same, got)] if d] if caps_of(inp["kind"])[0] else []
+            got = read_through(kind, raw, path, e, plan, enc=enc)
+            ref_same = read_through("path", raw, path, e, plan, enc=enc)
+            if inp.get("timing"):
+                other = read_through(kind, raw, path, True, plan, enc=enc)
+                if ("err" in got) != ("err" in other):
+                    bad.append(f"outcome: {other.get('err', 'ok')} with read_evlrs=True, {got.get('err', 'ok')} {got.get('msg', '')} with {e}")
+                else:
+                    bad += [d for d in [same_read(other, got)] if d]
+            elif inp.get("class") == "malformed":
+                bad += [d for d in [same_read(ref_same, got)] if d] if caps_of(kind)[0] else []
             else:
-                bad = judge(raw, inp.get("class", "valid"), inp["kind"], e, plan, ref, ref_same, got)
-            if not caps_of(inp["kind"])[0]:
+                bad += judge(raw[:400], inp.get("class", "valid"), kind, e, plan, ref, ref_same, got)
+            if not caps_of(kind)[0]:
                 bad += [t for t in got.get("log", []) if t[0] in "st"] + [a for a in got.get("asked", []) if a in ("seek", "tell")]
-            if not has_close(inp["kind"]):
+            if not has_close(kind):
                 bad += sorted(set(got.get("asked", [])) - {"readinto", "seekable"})
-        print("REPRODUCED:" if bad else "not reproduced", bad, got.get("log"))
+        print("REPRODUCED:" if bad else "not reproduced", str(bad)[:1500], str(got.get("log"))[:400])
         return 1 if bad else 0
     finally:
         shutil.rmtree(tmp, ignore_errors=True)
